@@ -437,3 +437,15 @@ Proof.
   rewrite (HF (rs_inc r)) in Hin. unfold queued in Hin. rewrite (concat_nil_nth _ _ Hc) in Hin.
   simpl in Hin. rewrite app_nil_r in Hin. unfold sel in Hin. apply filter_In in Hin. tauto.
 Qed.
+
+(* the same over reachability: in every reachable quiescent state every response ever produced
+   has been sent *)
+Lemma every_response_is_sent_reachable : forall v cfg db ops,
+  let st := fst (run v cfg db (init cfg) ops) in
+  let tr := snd (run v cfg db (init cfg) ops) in
+  quiescent st -> forall r, In r (enqs tr) -> In r (sents tr).
+Proof.
+  intros v cfg db ops. destruct (run v cfg db (init cfg) ops) as [st tr] eqn:Er. simpl.
+  destruct (run_fifo _ _ _ _ _ _ _ _ (qinv_init cfg) (fifo_init cfg) Er) as [_ HF]. simpl in HF.
+  intros Hq r Hr. exact (every_response_is_sent cfg st tr HF Hq r Hr).
+Qed.
